@@ -16,7 +16,7 @@ for ID in $IDS; do
   [ -z "$BC" ] && BC=HEAD
   git -C /repo worktree add -q --detach $WT $BC 2>/dev/null || { echo "$ID worktree failed"; continue; }
   if git -C $WT apply $(pwd)/seeded/$ID/patch.diff 2>/dev/null; then
-    VP_REPO=$WT VP_EVIDENCE_DIR=$(pwd)/work/seeded-evidence/reg-$ID ./check $P --no-conform > work/regress/$ID.out 2> work/regress/$ID.err
+    VP_REPO=$WT VP_EVIDENCE_DIR=$(pwd)/work/seeded-evidence/reg-$ID ./check $P --no-conform --fail-fast > work/regress/$ID.out 2> work/regress/$ID.err
     rc=$?
     echo "$ID $P rc=$rc violations=$(grep -c '^VIOLATION' work/regress/$ID.out) $(grep -h 'obligations=' work/regress/$ID.err | tail -1 | sed 's/.*\] //')"
   else
@@ -24,7 +24,7 @@ for ID in $IDS; do
     git -C /repo worktree remove --force $WT
     git -C /repo worktree add -q --detach $WT a977e78 2>/dev/null
     if git -C $WT apply $(pwd)/seeded/$ID/patch.diff 2>/dev/null; then
-      VP_REPO=$WT VP_EVIDENCE_DIR=$(pwd)/work/seeded-evidence/reg-$ID ./check $P --no-conform > work/regress/$ID.out 2> work/regress/$ID.err
+      VP_REPO=$WT VP_EVIDENCE_DIR=$(pwd)/work/seeded-evidence/reg-$ID ./check $P --no-conform --fail-fast > work/regress/$ID.out 2> work/regress/$ID.err
       rc=$?
       echo "$ID $P (on a977e78) rc=$rc violations=$(grep -c '^VIOLATION' work/regress/$ID.out) $(grep -h 'obligations=' work/regress/$ID.err | tail -1 | sed 's/.*\] //')"
     else
